@@ -84,6 +84,10 @@ CLAIMS = {
    level=("other", "Reference-layout agreement. Wire.tla states the documented layout as arithmetic over message shapes; TLC enumerates 18 757 (quick) shapes over the property's length classes (0, 1, 255, 256, 16383, 16384, 16385, 65535), digests of 0/1/2/2000 entries, IPv4/IPv6, header-only / key-value (every status) / SetMaxVersion / empty-member op mixes, raw framing with thresholds 100/16384/65535 (several uncompressed blocks) and the encoder's own framing. Each shape is realised by the independent codec with three string contents (compressible ASCII, 7-bit random, multi-byte UTF-8); the codec's byte counts are checked against the spec, the real decoder must accept the bytes, consume all of them and announce their exact length, the real encoder must reproduce them for its own framing, and the codec must read the real encoder's output; in addition every datagram emitted by real nodes in random cluster runs (up to ~53 KB, several compressed blocks) is round-tripped through both implementations. Observations are judged by ObserveWire.tla.", "6 (C08)"),
    note="zstd is trusted; compressed-block contents are not modelled in TLA+ (their framing is); messages are compared through the derived Debug view because message internals are crate-private",
    technique="TLA+ layout arithmetic over enumerated message shapes (Wire.tla) + independent codec + real decoder/encoder round trips judged by observer spec"),
+ "C19": dict(
+   level=("model_checking", "Server.tla models the gossip loop seen from outside (scripted transport, command channel, state mutex, termination watcher) with one action per script event and states C19 as TLC-checked properties (send errors harmless, a live loop keeps heartbeating and answering, fatal receive error / panic / shutdown end the loop and are reported, a dead loop does nothing). TLC enumerates EVERY script of up to 4 (quick; 41 370 scripts) / 5 (thorough) events over 14 event kinds including each event while the user holds the state mutex; every script is run against the real spawn_chitchat loop on a scripted public Transport/Socket under the paused clock and the observed per-event effects are compared; differences are judged by ObserveServer.tla. The real UdpTransport is exercised on loopback with garbage datagrams up to 65 507 bytes and an unreachable seed, then a shutdown.", "6 (C19)"),
+   note="oversized sends are injected as Socket::send errors on the scripted transport (the kernel's refusal cannot be provoked through the public API); scripts up to 12 events are not exhaustive (state-graph argument: the model state after any script is one of 2 955 states all of which are reached within 4 events); the UDP part is real-time",
+   technique="TLA+ exhaustive script enumeration (Server.tla) + replay on the real server loop with a scripted transport + observer spec; loopback UDP driver"),
 }
 PENDING = "specification module for this property not built yet in this revision (see DESIGN.md section 10 build order)"
 
